@@ -57,7 +57,7 @@ ANG = st.one_of(st.floats(-7, 7, allow_nan=False), st.integers(-8, 8).map(lambda
 
 
 @st.composite
-def gate11(draw, width, symbolic=False, measure=True):
+def gate11(draw, width, symbolic=False, measure=True, vrate=1):
     kind = draw(st.integers(0, 11))
     if kind == 0 and measure:
         return {"n": "MEASURE", "t": [draw(st.integers(0, width - 1))], "c": None, "p": None}
@@ -72,9 +72,32 @@ def gate11(draw, width, symbolic=False, measure=True):
         if symbolic and g["n"] != "XX" and r <= 3:
             g["p"] = draw(st.sampled_from(["theta", "phi", "a0", "a1"]))
             g["v"] = True
-        elif r <= 1:
+        elif r <= vrate:
             g["v"] = True
     return g
+
+
+MERGEABLE = ("RX", "RY", "RZ", "PHASE", "CRX", "CRY", "CRZ", "CPHASE")
+
+
+def numeric_rot(g):
+    return g["n"] in MERGEABLE and g["p"] is not None and not isinstance(g["p"], str)
+
+
+@st.composite
+def with_runs(draw, gates, max_gates):
+    """Follow some numeric rotations by 1-2 more rotations with the same name/target/control and independently drawn
+    variational flags (fixed->variational, variational->fixed, three in a row; int and float parameters)."""
+    out = []
+    for g in gates:
+        out.append(g)
+        if numeric_rot(g) and draw(st.integers(0, 2)) == 0:
+            for _ in range(draw(st.integers(1, 2))):
+                h = {"n": g["n"], "t": list(g["t"]), "c": list(g["c"]) if g["c"] else None, "p": draw(ANG)}
+                if draw(st.booleans()):
+                    h["v"] = True
+                out.append(h)
+    return out[:max_gates]
 
 
 @st.composite
@@ -82,7 +105,9 @@ def circ11(draw, max_width=5, max_gates=8, allow_fixed=True):
     width = draw(st.integers(1, max_width))
     symbolic = draw(st.integers(0, 4)) == 0
     measure = draw(st.integers(0, 2)) == 0
-    gates = draw(st.lists(gate11(width, symbolic, measure), min_size=0, max_size=max_gates))
+    vrate = draw(st.sampled_from([-1, -1, 0, 1, 3]))      # -1: no variational gate except inside the inserted runs
+    gates = draw(st.lists(gate11(width, symbolic, measure, vrate), min_size=0, max_size=max_gates))
+    gates = draw(with_runs(gates, max_gates + 2))
     used = 1 + max([max(gq(g)) for g in gates], default=-1)
     k = draw(st.integers(0, 5))
     nq = None if (k <= 2 or (k > 3 and not allow_fixed)) else (0 if k == 3 else draw(st.integers(max(used, 1), max(used, 1) + 2)))
@@ -94,41 +119,53 @@ THR = st.sampled_from([0, 1e-6, 1e-3, 0.1, 1.0])
 FORM = st.sampled_from(["fn", "method"])
 
 
-def op11(max_width=5, formats=None, backends=None):
+MERGE_FOCUS = ("add_like", "add_like", "merge", "merge", "merge", "small", "copy", "depth", "set_param", "trim", "add_gate", "show")
+
+
+def op11(max_width=5, formats=None, backends=None, focus=None):
     fd = st.fixed_dictionaries
     formats = formats or FORMATS
     main_formats = [f for f in ("cirq", "sympy", "qdk") if f in formats] or formats
     backends = backends or ["cirq", "cirq", "cirq", "sympy"]
-    return st.one_of(
-        fd({"op": st.just("add_gate"), "i": IDX, "g": gate11(max_width, symbolic=True)}),
-        fd({"op": st.just("add_gate"), "i": IDX, "g": gate11(max_width)}),
-        fd({"op": st.just("add"), "i": IDX, "j": IDX}),
-        fd({"op": st.just("mul"), "i": IDX, "k": st.sampled_from([1, 2, 2, 3, 0, -1]), "side": st.sampled_from(["l", "r"])}),
-        fd({"op": st.just("copy"), "i": IDX}),
-        fd({"op": st.just("inverse"), "i": IDX}),
-        fd({"op": st.just("trim"), "i": IDX}),
-        fd({"op": st.just("reindex"), "i": IDX, "perm": st.permutations(list(range(8))), "extra": st.sampled_from([0, 0, 0, 1, 2]),
-            "badlen": st.sampled_from([0, 0, 0, 0, 1, -1])}),
-        fd({"op": st.just("split"), "i": IDX, "trim": st.booleans()}),
-        fd({"op": st.just("stack"), "i": IDX, "js": st.lists(IDX, min_size=0, max_size=2), "form": FORM}),
-        fd({"op": st.just("small"), "i": IDX, "form": FORM, "thr": THR, "rq": st.booleans()}),
-        fd({"op": st.just("merge"), "i": IDX, "form": FORM}),
-        fd({"op": st.just("redundant"), "i": IDX, "form": FORM, "rq": st.booleans()}),
-        fd({"op": st.just("simplify"), "i": IDX, "form": FORM, "thr": THR, "rq": st.booleans()}),
-        fd({"op": st.just("depth"), "i": IDX}),
-        fd({"op": st.just("show"), "i": IDX}),
-        fd({"op": st.just("translate"), "i": IDX, "fmt": st.sampled_from(formats)}),
-        fd({"op": st.just("translate"), "i": IDX, "fmt": st.sampled_from(main_formats)}),
-        fd({"op": st.just("simulate"), "i": IDX, "backend": st.sampled_from(backends)}),
-        fd({"op": st.just("set_param"), "i": IDX, "k": st.integers(0, 5), "val": st.one_of(st.floats(-7, 7, allow_nan=False), st.just("beta"))}),
-    )
+    alts = [
+        ("add_gate", fd({"op": st.just("add_gate"), "i": IDX, "g": gate11(max_width)})),
+        ("add_gate", fd({"op": st.just("add_gate"), "i": IDX, "g": gate11(max_width, symbolic=True)})),
+        ("add_like", fd({"op": st.just("add_like"), "i": IDX, "p": ANG, "v": st.booleans()})),
+        ("add_like", fd({"op": st.just("add_like"), "i": IDX, "p": ANG, "v": st.booleans()})),
+        ("add", fd({"op": st.just("add"), "i": IDX, "j": IDX})),
+        ("mul", fd({"op": st.just("mul"), "i": IDX, "k": st.sampled_from([1, 2, 2, 3, 0, -1]), "side": st.sampled_from(["l", "r"])})),
+        ("copy", fd({"op": st.just("copy"), "i": IDX})),
+        ("inverse", fd({"op": st.just("inverse"), "i": IDX})),
+        ("trim", fd({"op": st.just("trim"), "i": IDX})),
+        ("reindex", fd({"op": st.just("reindex"), "i": IDX, "perm": st.permutations(list(range(8))), "extra": st.sampled_from([0, 0, 0, 1, 2]),
+            "badlen": st.sampled_from([0, 0, 0, 0, 1, -1])})),
+        ("split", fd({"op": st.just("split"), "i": IDX, "trim": st.booleans()})),
+        ("stack", fd({"op": st.just("stack"), "i": IDX, "js": st.lists(IDX, min_size=0, max_size=2), "form": FORM})),
+        ("small", fd({"op": st.just("small"), "i": IDX, "form": FORM, "thr": THR, "rq": st.booleans()})),
+        ("merge", fd({"op": st.just("merge"), "i": IDX, "form": FORM})),
+        ("redundant", fd({"op": st.just("redundant"), "i": IDX, "form": FORM, "rq": st.booleans()})),
+        ("simplify", fd({"op": st.just("simplify"), "i": IDX, "form": FORM, "thr": THR, "rq": st.booleans()})),
+        ("depth", fd({"op": st.just("depth"), "i": IDX})),
+        ("show", fd({"op": st.just("show"), "i": IDX})),
+        ("translate", fd({"op": st.just("translate"), "i": IDX, "fmt": st.sampled_from(formats)})),
+        ("translate", fd({"op": st.just("translate"), "i": IDX, "fmt": st.sampled_from(main_formats)})),
+        ("simulate", fd({"op": st.just("simulate"), "i": IDX, "backend": st.sampled_from(backends)})),
+        ("set_param", fd({"op": st.just("set_param"), "i": IDX, "k": st.integers(0, 5), "val": st.one_of(st.floats(-7, 7, allow_nan=False), st.just("beta"))})),
+    ]
+    if focus:
+        # one alternative per occurrence of the name in `focus` (repeats = weight)
+        byname = {}
+        for nm, a in alts:
+            byname.setdefault(nm, a)
+        return st.one_of(*[byname[n] for n in focus])
+    return st.one_of(*[a for _, a in alts])
 
 
 @st.composite
-def histories(draw, max_ops, formats=None, backends=None, allow_fixed=True):
+def histories(draw, max_ops, formats=None, backends=None, allow_fixed=True, focus=None):
     pool = draw(st.lists(circ11(allow_fixed=allow_fixed), min_size=1, max_size=3))
     n_ops = draw(st.integers(4, max_ops))        # drawn explicitly: plain st.lists is heavily biased towards short lists
-    ops = draw(st.lists(op11(formats=formats, backends=backends), min_size=n_ops, max_size=n_ops))
+    ops = draw(st.lists(op11(formats=formats, backends=backends, focus=focus), min_size=n_ops, max_size=n_ops))
     return {"pool": pool, "ops": ops}
 
 
@@ -295,7 +332,7 @@ def check_circuit(c, m, opname, role, step):
 
 # ------------------------------------------------------------------------------------------------ interpreter
 
-INPLACE = {"add_gate", "trim", "reindex", "small_method", "merge_method", "redundant_method", "simplify_method", "set_param"}
+INPLACE = {"add_gate", "add_like", "trim", "reindex", "small_method", "merge_method", "redundant_method", "simplify_method", "set_param"}
 
 
 def run_history(case, ctx):
@@ -356,6 +393,16 @@ def run_history(case, ctx):
                     continue
                 c.add_gate(G)
                 pool[i][1] = mm
+
+        elif name == "add_like":
+            # one more rotation on exactly the qubits of the circuit's latest numeric rotation (builds mergeable runs)
+            last = next((g for g in reversed(m["gates"]) if numeric_rot(g)), None)
+            if last is None or len(m["gates"]) >= MAX_SIZE:
+                labels.add("skipped:add_like")
+                continue
+            g = {"n": last["n"], "t": list(last["t"]), "c": list(last["c"]) if last["c"] else None, "p": op["p"], "v": op["v"]}
+            c.add_gate(S.build_gate(g))
+            m_add_gate(m, g)
 
         elif name == "add":
             j = op["j"] % len(pool)
@@ -472,6 +519,13 @@ def run_history(case, ctx):
             if "rq" in op:
                 kw["remove_qubits"] = op["rq"]
             old_w = m_width(m)
+            if name in ("merge", "simplify"):
+                mg = m["gates"]
+                for a, b in zip(mg, mg[1:]):
+                    if numeric_rot(a) and numeric_rot(b) and (a["n"], a["t"], a["c"]) == (b["n"], b["t"], b["c"]) and a["v"] != b["v"]:
+                        labels.add(f"{name}:run-" + ("variational-then-fixed" if a["v"] else "fixed-then-variational"))
+                        if sum(1 for g in mg if g["v"]) == 1:
+                            labels.add(f"{name}:run-with-the-only-variational-gate")
             if form == "fn":
                 out = getattr(TC, what)(c, **kw)
             else:
@@ -600,12 +654,14 @@ EXCLUSIONS = {
 def history_part(ctx):
     max_ops = 25 if ctx.tier == "quick" else 40
     body = lambda case: run_history(case, ctx)
-    ctx.search("history", histories(max_ops), body, frac=0.6, exclusions=EXCLUSIONS)
+    ctx.search("history", histories(max_ops), body, frac=0.45, exclusions=EXCLUSIONS)
+    # runs of same-qubit rotations with mixed variational flags, merged and then inspected / written through _variational_gates
+    ctx.search("history_merge", histories(max_ops, focus=MERGE_FOCUS), body, frac=0.25, exclusions=EXCLUSIONS)
     # two narrower mixes (no fixed width, one family of writers each), so that a defect on one path cannot hide the others
     ctx.search("history_sympy", histories(max_ops, formats=["sympy", "ionq", "projectq"], backends=["sympy"], allow_fixed=False),
-               body, frac=0.2, exclusions=EXCLUSIONS)
+               body, frac=0.15, exclusions=EXCLUSIONS)
     ctx.search("history_qdk", histories(max_ops, formats=["qdk", "ionq", "projectq"], backends=["sympy"], allow_fixed=False),
-               body, frac=0.2, exclusions=EXCLUSIONS)
+               body, frac=0.15, exclusions=EXCLUSIONS)
 
 
 # ------------------------------------------------------------------------------------------------ index validation
